@@ -24,16 +24,17 @@ def bounds(tier):
             'steps': list(STEPS)}
 
 
-def rt(steps, maxlen=2, T=60, latin=False, tree='full', cmp='length'):
-    P = {'steps': list(steps), 'tree': tree, 'cmp': cmp}
+def rt(steps, maxlen=2, T=60, latin=False, tree='full', cmp='length', msg_envelope=None, example=None):
+    P = {'steps': list(steps), 'tree': tree, 'cmp': cmp, 'msg_envelope': msg_envelope}
     sym = [('c0', 'str'), ('c1', 'str')]
     # the parser never yields '' (it yields None), so texts have at least one character
     pre = ["re.fullmatch('[' + %s + ']{1,%d}', c0)" % (CHX if latin else CH, maxlen),
            "re.fullmatch('[' + %s + ']{1,%d}', c1)" % (CH, maxlen)]
-    return Cell(pid=PID, cid='C14/roundtrip/%s/%s-%s/len%d%s' % ('+'.join(steps), tree, cmp, maxlen, '/latin1' if latin else ''),
+    return Cell(pid=PID, cid='C14/roundtrip/%s/%s-%s/len%d%s%s' % ('+'.join(steps), tree, cmp, maxlen, '/latin1' if latin else '',
+                                                    ('/msg-envelope-' + msg_envelope) if msg_envelope else ''),
                 harness='h_roundtrip:roundtrip_cell',
                 params=P, sym=sym, pre=pre, stubs=('hash',), timeout=T, cost=30,
-                example={'c0': '&<'[:maxlen], 'c1': '"é>'[:maxlen]})
+                example=example or {'c0': '&<'[:maxlen], 'c1': '"é>'[:maxlen]})
 
 
 def cells(tier):
@@ -51,6 +52,14 @@ def cells(tier):
              ('roStoryInsert', 'roItemInsert'), ('roMetadataReplace', 'roMetadataReplace'), ('roReplace', 'roDelete'))
     for pair in pairs[:2] if tier == 'quick' else pairs:
         out.append(rt(pair, maxlen=1, T=2 * T))
+    # messages whose <mos> envelope has fewer / more header children than the running order's
+    for st in ('roReplace', 'roStorySend', 'roDelete', 'roMetadataReplace'):
+        for lay in ('short', 'long'):
+            out.append(rt([st], maxlen=1, T=2 * T, msg_envelope=lay))
+    out.append(rt(['roReplace', 'roStoryInsert'], maxlen=1, T=2 * T, msg_envelope='short'))
+    # IDs that are whitespace (concrete anchors: ' ' and tab) - they must survive the round trip as they are
+    out.append(rt(['none'], maxlen=1, T=2 * T, tree='ids', example={'c0': ' ', 'c1': chr(9)}))
+    out.append(rt(['roItemReplace'], maxlen=1, T=2 * T, tree='ids', example={'c0': chr(10), 'c1': ' '}))
     out.append(rt(['none'], maxlen=1, T=2 * T, latin=True))
     out.append(rt(['roStorySend'], maxlen=1, T=2 * T, latin=True))
     # envelope invariants after every kind of merge (resolvable or not)
